@@ -312,10 +312,19 @@ pub fn run_c10(tier: Tier) -> Report {
     let st = structured_alphabet();
     run_cmp_group("structured", &st, &Kind::any(), &st, &Kind::any(), true, true, &mut rep, &mut tot);
 
+    // cross-kind equality: values of DIFFERENT kinds are never equal (no lossy coercion: "1" != 1, 0 != false,
+    // null != "", [] != {} …), `!=` is the negation; integers only on the numeric side (int/float is judged above)
+    let cross: Vec<Value> = vec![
+        Value::Null, Value::Boolean(true), Value::Boolean(false), vv::i(0), vv::i(1), vv::s(""), vv::s("1"), vv::s("0"), vv::s("true"), vv::s("null"),
+        vv::s("[]"), vv::s("1970-01-01T00:00:00Z"), vv::ts("1970-01-01T00:00:00Z"), vv::arr(&[]), vv::arr(&[vv::i(1)]), vv::arr(&[vv::i(0)]), vv::arr(&[Value::Null]),
+        vv::obj(&[]), vv::obj(&[("a", vv::i(1))]),
+    ];
+    run_cmp_group("cross-kind", &cross, &Kind::any(), &cross, &Kind::any(), true, true, &mut rep, &mut tot);
+
     rep.set("evaluations", tot.evals);
     rep.set("operand_pairs", tot.pairs);
     rep.set("distinct_nontrivial", tot.distinct.len() as u64);
-    rep.set("rule", "every ordered operand pair of each per-kind alphabet (integers: [-64,64] (thorough [-300,300]) ∪ 2^k±{0,1,2} ∪ i64 extremes; floats incl. ±0, ±inf, 2^53, subnormal; byte strings incl. non-UTF-8; timestamps; nested values) × 6 operators × {exact-kind env, any env}; distinct_nontrivial counts distinct (group, operator, verdict) classes observed");
+    rep.set("rule", "(plus a cross-kind equality group of 19 values of 7 kinds) every ordered operand pair of each per-kind alphabet (integers: [-64,64] (thorough [-300,300]) ∪ 2^k±{0,1,2} ∪ i64 extremes; floats incl. ±0, ±inf, 2^53, subnormal; byte strings incl. non-UTF-8; timestamps; nested values) × 6 operators × {exact-kind env, any env}; distinct_nontrivial counts distinct (group, operator, verdict) classes observed");
     rep
 }
 
